@@ -121,7 +121,7 @@ theorem regular_nb (P A Dl dd q rem cy2 vrl t : Nat) (hA : A < P) (hrem : rem < 
   · linarith
   · linarith [Nat.zero_le (Dl * q)]
 
-theorem regular_b (P A Dl dd d1 d0 q rem cy2 vrl n1s n0s vs c : Nat) (hP : 0 < P) (hA : A < P) (hDl : Dl < P)
+theorem regular_b (P A Dl dd d1 d0 q rem cy2 vrl n1s n0s vs c : Nat) (hDl : Dl < P)
     (hvrl : vrl < P) (hq : q < B) (hrem : rem < dd) (hb : rem < cy2) (hdd : dd = d1 * B + d0) (hddB : B ≤ dd)
     (hddlt : dd < B * B)
     (hsub : vrl + Dl * q = A + P * cy2) (ht : n1s * B + n0s + cy2 = rem + B * B)
@@ -323,7 +323,7 @@ theorem sbRegular_spec (dlo alo : List Nat) (d0 d1 m0 m1 n1 dinv : Nat) (hlen : 
     rw [an, hlen1, pow_k1] at hvs
     rw [hlen1, pow_k1, val_top1, val_top1, hrn] at av
     obtain ⟨q', K', e1, e2, e3, e4, e5⟩ := regular_b (B ^ dlo.length) (val alo) (val dlo) (d1 * B + d0) d1 d0 q rem
-      cy2 (val rl) n1s n0s (val vs) c (by positivity) hAlt hDlt hrlt hqB hrem (by omega) rfl hddB hddlt
+      cy2 (val rl) n1s n0s (val vs) c hDlt hrlt hqB hrem (by omega) rfl hddB hddlt
       (by linarith) ht (by linarith) hvs
     have eq' : (q + B - 1) % B = q' := by
       rw [e1, show q' + 1 + B - 1 = q' + B by omega, Nat.add_mod_right, Nat.mod_eq_of_lt (by omega)]
